@@ -363,6 +363,17 @@ func (p *ProofD) ChallengeContribution(pk *gabikeys.PublicKey) ([]*big.Int, erro
 	}
 
 	if p.RangeProofs != nil {
+		// every range proof must sit at a hidden attribute and must be present
+		for index, proofs := range p.RangeProofs {
+			if _, hidden := p.AResponses[index]; !hidden {
+				return nil, errors.New("range proof on an attribute that is not hidden")
+			}
+			for _, proof := range proofs {
+				if proof == nil {
+					return nil, errors.New("missing range proof")
+				}
+			}
+		}
 		if p.cachedRangeStructures == nil {
 			if err := p.reconstructRangeProofStructures(pk); err != nil {
 				return nil, err
